@@ -154,7 +154,7 @@ inductive Err where
   | value            -- ValueError (non-zero version length)
   | struct           -- struct.error (short back pointer)
   | os               -- OSError (negative seek offset, missing file)
-  | unicode          -- UnicodeDecodeError (status byte ≥ 128 in `TxnHeaderFromString`)
+  | unicode          -- UnicodeDecodeError (status byte ≥ 128: `as_text(status)`, `TxnHeaderFromString`)
 deriving Repr, DecidableEq
 
 /-- `_read_data_header(pos)` on `rest = file[pos:]`, plus the data bytes (which read_index skips):
@@ -211,7 +211,8 @@ def parseTxn (rest : Bytes) (pos : Nat) : ParseResult :=
   else if h.length ≠ 23 then .truncate false
   else
     let hd := parseHdr h
-    if hd.tl + 8 > rest.length ∨ hd.st = stCheckpoint then .truncate true
+    if hd.st ≥ 128 then .err .unicode                    -- `status = as_text(status)` (ascii)
+    else if hd.tl + 8 > rest.length ∨ hd.st = stCheckpoint then .truncate true
     else if hd.tl < 23 + hd.ul + hd.dl + hd.el then
       let rtl := beVal (rest.drop (rest.length - 8))
       if rest.length < rtl ∨ rtl < 23 then .truncate true else .err .corruptedTxn
